@@ -141,6 +141,58 @@ def _strnl_case(rng, tag):
     return {'kind': 'strnl', 'text': pl.text, 'ptoks': toks, 'pnodes': nodes, 'gen': tag}
 
 
+JUNK = ['\ufeff', '\x00', '$', '#', '\x0c', '\ufeff\ufeff', '$#', '\x7f', '`', '~', '\\', '@', '\u00a7', '\x00\n', '$\n#', ' \ufeff ']
+
+
+def _with_junk(rng, item):
+    """the same program with characters NO RULE MATCHES (byte order mark, NUL, `$`, `#`, form feed, ...) in front of
+    it, in front of some of its tokens and behind it: `t_error` skips them, so the token stream is the same and
+    every position must still be exact with respect to the GIVEN text (offsets / lines / columns from the independent
+    line/column oracle on the new text)"""
+    text = item['text']
+    kinds = item['kinds']
+    ins = {}
+    where = rng.choice(['start', 'start', 'middle', 'end', 'all', 'all'])
+    if where in ('start', 'all'):
+        ins[-1] = rng.choice(JUNK[:6] if rng.random() < 0.7 else JUNK)
+    if where in ('middle', 'all'):
+        for i in rng.sample(range(len(kinds)), min(len(kinds), rng.choice([1, 2, 4]))):
+            # `ns::x`: the NAMESPACE rule looks ahead for '::' - junk between the two would change the tokens
+            if kinds[i] == 'DOUBLECOLON' or (i > 0 and kinds[i - 1] in ('NAMESPACE', 'DOUBLECOLON')):
+                continue
+            ins[i] = rng.choice(JUNK)
+    tail = rng.choice(JUNK) if where in ('end', 'all') else ''
+    parts = []
+    pos = 0
+    delta = 0
+    new_off = []
+    if -1 in ins:
+        parts.append(ins[-1])
+        delta += len(ins[-1])
+    for i, (st, sp, _, _, _, _) in enumerate(item['toks']):
+        parts.append(text[pos:st])
+        if i in ins:
+            parts.append(ins[i])
+            delta += len(ins[i])
+        parts.append(text[st:sp])
+        new_off.append((st + delta, sp + delta))
+        pos = sp
+    parts.append(text[pos:])
+    parts.append(tail)
+    new = ''.join(parts)
+    toks = []
+    for st, sp in new_off:
+        l1, c1 = _linecol(new, st)
+        l2, c2 = _linecol(new, sp - 1)
+        toks.append([st, sp, l1, c1, l2, c2])
+    out = dict(item)
+    out['text'] = new
+    out['toks'] = toks
+    out['stats'] = dict(item['stats'])
+    out['stats']['layout-junk-' + where] = 1
+    return out
+
+
 def _linecol(text, off):
     """independent oracle: 1-based line and column of offset `off`"""
     line = text.count('\n', 0, off) + 1
@@ -259,6 +311,8 @@ def generate(ctx):
     # time families first: a super-linear rule shows up on them at once (and would slow every later case)
     for c in _time_cases(ctx):
         yield c
+    for name, text in G.long_tokens():
+        yield {'kind': 'time', 'family': name, 'n': len(text), 'text': text}
     for c in _tight_cases(ctx):
         yield c
     for c in _seq_cases(ctx, ctx.pick(250, 4000)):
@@ -268,7 +322,10 @@ def generate(ctx):
     for i in range(n_pos):
         r = rng.fork(i)
         style = r.choice(['wild', 'wild', 'wild', 'plain', 'tight'])
-        yield _pos_case(r, style, r.choice([2, 3, 3, 4]), r.choice([1, 3, 6, 9]), True, ['pos', i])
+        c = _pos_case(r, style, r.choice([2, 3, 3, 4]), r.choice([1, 3, 6, 9]), True, ['pos', i])
+        if i % 5 == 0:
+            c = _with_junk(r.fork('junk'), c)       # illegal (skipped) characters at the start / between tokens / at the end
+        yield c
     # a raw line break inside a double-quoted string: rejected, or a tree with exact positions
     rng = ctx.rng.fork('strnl')
     for i in range(ctx.pick(200, 3000)):
@@ -314,7 +371,8 @@ def search(ctx, broken):
     while True:
         r = rng.fork(i)
         i += 1
-        yield _pos_case(r, 'wild', 3, r.choice([2, 5, 9]), True, ['search', i])
+        c = _pos_case(r, 'wild', 3, r.choice([2, 5, 9]), True, ['search', i])
+        yield _with_junk(r.fork('junk'), c) if i % 3 == 0 else c
         if i % 4 == 0:
             c = _strnl_case(r.fork('strnl'), ['search-strnl', i])
             if c is not None:
